@@ -294,14 +294,79 @@ fn scenario(s: Arc<S15>, table: Arc<HashMap<u32, Arc<Vec<Option<u64>>>>>, obs: A
     obs.lock().unwrap().push(h);
 }
 
-/// Sequential part: partial statistics and merging, best_code.
-fn merge_part(s: &S15, ctx: &mut Ctx) {
-    ctx.set_tags(vec!["op=merge".into()]);
-    let mut parts: Vec<CodesStats> = Vec::new();
-    let mut exp = vec![Some(0u64); NFIELDS];
+fn code_key(c: Codes) -> u32 {
+    match c {
+        Codes::Unary => 0,
+        Codes::Gamma => 1,
+        Codes::Delta => 2,
+        Codes::Omega => 3,
+        Codes::VByteBe => 4,
+        Codes::VByteLe => 5,
+        Codes::Zeta { k } => 100 + k as u32,
+        Codes::Golomb { b } => 1000 + b as u32,
+        Codes::ExpGolomb { k } => 200 + k as u32,
+        Codes::Rice { log2_b } => 300 + log2_b as u32,
+        Codes::Pi { k } => 400 + k as u32,
+        _ => 999_999,
+    }
+}
+
+fn real_size_cached(code: Codes, v: u64) -> Option<u64> {
+    static CACHE: OnceLock<StdMutex<HashMap<(u32, u64), Option<u64>>>> = OnceLock::new();
+    let c = CACHE.get_or_init(|| StdMutex::new(HashMap::new()));
+    let key = (code_key(code), v);
+    if let Some(x) = c.lock().unwrap().get(&key) {
+        return *x;
+    }
+    let r = real_size(code, v);
+    let mut g = c.lock().unwrap();
+    if g.len() < 2_000_000 {
+        g.insert(key, r);
+    }
+    r
+}
+
+/// Fields of a CodesStats with arbitrary family sizes, with the code each one stands for
+/// (documented mapping: zeta k=i+1, golomb b=i+1, exp-golomb k=i, rice log2_b=i, pi k=i+2).
+fn fields_g<const Z: usize, const G: usize, const EG: usize, const R: usize, const P: usize>(
+    s: &CodesStats<Z, G, EG, R, P>,
+) -> Vec<(Codes, u64)> {
+    let mut v = vec![
+        (Codes::Unary, s.unary),
+        (Codes::Gamma, s.gamma),
+        (Codes::Delta, s.delta),
+        (Codes::Omega, s.omega),
+        (Codes::VByteBe, s.vbyte),
+    ];
+    for (i, x) in s.zeta.iter().enumerate() {
+        v.push((Codes::Zeta { k: i + 1 }, *x));
+    }
+    for (i, x) in s.golomb.iter().enumerate() {
+        v.push((Codes::Golomb { b: i + 1 }, *x));
+    }
+    for (i, x) in s.exp_golomb.iter().enumerate() {
+        v.push((Codes::ExpGolomb { k: i }, *x));
+    }
+    for (i, x) in s.rice.iter().enumerate() {
+        v.push((Codes::Rice { log2_b: i }, *x));
+    }
+    for (i, x) in s.pi.iter().enumerate() {
+        v.push((Codes::Pi { k: i + 2 }, *x));
+    }
+    v
+}
+
+/// Sequential part: partial statistics and merging, best_code — for one choice of
+/// the family sizes (const parameters of CodesStats).
+fn merge_part_g<const Z: usize, const G: usize, const EG: usize, const R: usize, const P: usize>(s: &S15, ctx: &mut Ctx, label: &str) {
+    ctx.set_tags(vec!["op=merge".into(), format!("sizes={}", label)]);
+    let mut parts: Vec<CodesStats<Z, G, EG, R, P>> = Vec::new();
+    let proto = fields_g(&CodesStats::<Z, G, EG, R, P>::default());
+    let nf = proto.len();
+    let mut exp = vec![Some(0u64); nf];
     let mut exp_total = 0u64;
     for p in &s.partials {
-        let mut st = CodesStats::default();
+        let mut st = CodesStats::<Z, G, EG, R, P>::default();
         for (v, c) in p {
             ctx.ops += 1;
             if *c == 1 {
@@ -312,9 +377,8 @@ fn merge_part(s: &S15, ctx: &mut Ctx) {
             } else {
                 st.update_many(*v, *c);
             }
-            let sz = sizes_of(*v);
-            for k in 0..NFIELDS {
-                exp[k] = match (exp[k], sz[k]) {
+            for k in 0..nf {
+                exp[k] = match (exp[k], real_size_cached(proto[k].0, *v)) {
                     (Some(a), Some(b)) => Some(a + b * c),
                     _ => None,
                 };
@@ -324,7 +388,7 @@ fn merge_part(s: &S15, ctx: &mut Ctx) {
         parts.push(st);
     }
     // merge with the chosen mix
-    let mut acc = CodesStats::default();
+    let mut acc = CodesStats::<Z, G, EG, R, P>::default();
     let mut k = 0;
     while k < parts.len() {
         match s.merge_how.get(k).copied().unwrap_or(0) % 4 {
@@ -341,7 +405,7 @@ fn merge_part(s: &S15, ctx: &mut Ctx) {
                 k += 1;
             }
             _ => {
-                let rest: CodesStats = parts[k..].iter().copied().sum();
+                let rest: CodesStats<Z, G, EG, R, P> = parts[k..].iter().copied().sum();
                 acc += rest;
                 k = parts.len();
                 ctx.probe("c15.merged_with_sum");
@@ -352,18 +416,16 @@ fn merge_part(s: &S15, ctx: &mut Ctx) {
     if acc.total != exp_total {
         return ctx.fail("C15.merge_total", format!("merged element count {} != {}", acc.total, exp_total));
     }
-    let f = fields(&acc);
-    for k in 0..NFIELDS {
-        ctx.ev(f[k]);
+    let f = fields_g(&acc);
+    for k in 0..nf {
+        ctx.ev(f[k].1);
         if let Some(e) = exp[k] {
-            if f[k] != e {
+            if f[k].1 != e {
                 return ctx.fail(
                     "C15.merge_totals",
                     format!(
-                        "merged partial statistics: total for {:?} is {} but writing the union of the observed values with that code takes {} bits",
-                        field_code(k),
-                        f[k],
-                        e
+                        "merged partial statistics (family sizes {}): total for {:?} is {} but writing the union of the observed values with that code takes {} bits",
+                        label, f[k].0, f[k].1, e
                     ),
                 );
             }
@@ -372,16 +434,19 @@ fn merge_part(s: &S15, ctx: &mut Ctx) {
     ctx.progressed = true;
     if exp_total > 0 {
         let (bc, cost) = acc.best_code();
-        let min = *f.iter().min().unwrap();
+        let min = f.iter().map(|x| x.1).min().unwrap();
         ctx.ev(cost);
         if cost != min {
-            return ctx.fail("C15.best_code", format!("best_code reports cost {} but the minimum tracked total is {}", cost, min));
+            return ctx.fail(
+                "C15.best_code",
+                format!("best_code (family sizes {}) reports cost {} but the minimum tracked total is {}", label, cost, min),
+            );
         }
         // the reported code must be the one whose real encoded size is that cost
         let mut real = Some(0u64);
         for p in &s.partials {
             for (v, c) in p {
-                real = match (real, real_size(bc, *v)) {
+                real = match (real, real_size_cached(bc, *v)) {
                     (Some(a), Some(b)) => Some(a + b * c),
                     _ => None,
                 };
@@ -396,6 +461,14 @@ fn merge_part(s: &S15, ctx: &mut Ctx) {
             }
             ctx.probe("c15.best_code_checked_against_real_size");
         }
+    }
+}
+
+fn merge_part(s: &S15, ctx: &mut Ctx) {
+    // default family sizes and a second instantiation with pairwise different sizes
+    merge_part_g::<10, 20, 10, 10, 10>(s, ctx, "default");
+    if !ctx.failed() {
+        merge_part_g::<3, 5, 2, 6, 4>(s, ctx, "3,5,2,6,4");
     }
 }
 
